@@ -39,7 +39,7 @@ Import ListNotations.
 
 (** * Abstract documents *)
 Inductive item2 :=
-| Text2 (ws cs : str)                                   (* whitespace, then a run of inert characters *)
+| Text2 (ws cs : str)                                   (* whitespace, then a run of text characters *)
 | Grp2 (ws : str) (body : list item2) (tr : str)        (* ws { body tr } *)
 | Mac2 (ws name post : str) (args : list item2)         (* ws \name post {arg}...{arg} *)
 | Math2 (ws : str) (k : mathkind) (body : list item2) (tr : str)   (* ws $ body tr $   (four delimiter pairs) *)
@@ -104,6 +104,22 @@ Definition envname_ok (name : str) : bool :=
 (** a character that reaches the specials stage of the tokenizer's dispatch:
     not whitespace, not the escape, math, comment or brace characters *)
 Definition plain_start (c : N) : bool := negb (is_space c) && negb (mem_c c [92;36;37;123;125]%N).
+
+(** a TEXT character, written where the characters [ex] are group delimiters and
+    followed by [rest]: it reaches the last stage of the tokenizer's dispatch — not
+    whitespace, not [\ $ % { }], not in [ex], and NO specials sequence of the context
+    is a prefix of what is written from there on (so [-] in [a-b] is text although
+    [--] is a specials sequence; the core grammar's [inert] is the special case "no
+    specials sequence starts with this character") *)
+Definition char_ok (cx : context) (ex : str) (c : N) (rest : str) : bool :=
+  plain_start c && negb (mem_c c ex)
+  && match test_specials (map fst (cx_specials cx)) (c :: rest) None with None => true | Some _ => false end.
+
+Fixpoint text_ok (cx : context) (ex : str) (cs : str) (fol : str) : bool :=
+  match cs with
+  | [] => true
+  | c :: r => char_ok cx ex c (r ++ fol) && text_ok cx ex r fol
+  end.
 
 Definition is_nil (w : str) : bool := match w with [] => true | _ => false end.
 
@@ -202,7 +218,7 @@ Fixpoint ok_item2 (cx : context) (ps : pstate) (ex : str) (i : item2) (fol : str
           (sp || is_nil ws) && ok_item2 cx aps [] a fa
       | Text2 ws [c] =>
           (* a single character *)
-          (sp || is_nil ws) && ws_ok ws && inert cx c
+          (sp || is_nil ws) && ws_ok ws && char_ok cx [] c fa
       | Mac2 ws name post [] =>
           (* a control sequence (its own arguments are not parsed) *)
           ws_ok ws && ws_ok post && name_ok name post
@@ -240,7 +256,7 @@ Fixpoint ok_item2 (cx : context) (ps : pstate) (ex : str) (i : item2) (fol : str
               delim_ok oc' cc' && absent_ok (f_en_envs (ps_f aps)) oc' fa
           | AKChars [ch] sp _, Text2 ws [c] =>
               (* the marker character ([*]) *)
-              N.eqb c ch && inert cx c && (sp || is_nil ws) && ws_ok ws
+              N.eqb c ch && char_ok cx [] c fa && (sp || is_nil ws) && ws_ok ws
           | AKChars [ch] _ _, Abs2 =>
               plain_start ch && absent_ok (f_en_envs (ps_f aps)) ch fa
           | AKVerb d, Vba2 ws od cd text =>
@@ -262,7 +278,7 @@ Fixpoint ok_item2 (cx : context) (ps : pstate) (ex : str) (i : item2) (fol : str
   match i with
   | Text2 ws cs =>
       ws_ok ws && match cs with [] => false | _ => true end
-      && forallb (fun c => inert cx c && negb (mem_c c ex)) cs
+      && text_ok cx ex cs fol
   | Grp2 ws b tr =>
       ws_ok ws && ws_ok tr && oks ps [] b (tr ++ 125%N :: fol)
   | Math2 ws k b tr =>
@@ -395,7 +411,7 @@ Definition ok_expr2 (cx : context) : bool -> pstate -> item2 -> str -> bool :=
   fix oke (sp : bool) (aps : pstate) (a : item2) (fa : str) {struct a} : bool :=
     match a with
     | Grp2 ws _ _ => (sp || is_nil ws) && ok_item2 cx aps [] a fa
-    | Text2 ws [c] => (sp || is_nil ws) && ws_ok ws && inert cx c
+    | Text2 ws [c] => (sp || is_nil ws) && ws_ok ws && char_ok cx [] c fa
     | Mac2 ws name post [] =>
         ws_ok ws && ws_ok post && name_ok name post
         && match get_macro_spec cx name with Some _ => true | None => false end
@@ -425,7 +441,7 @@ Definition ok_arg2 (cx : context) (ps : pstate) (spc : argspec) (a : item2) (fa 
   | AKGroup [oc'] [cc'] true _, Abs2 =>
       delim_ok oc' cc' && absent_ok (f_en_envs (ps_f aps)) oc' fa
   | AKChars [ch] sp _, Text2 ws [c] =>
-      N.eqb c ch && inert cx c && (sp || is_nil ws) && ws_ok ws
+      N.eqb c ch && char_ok cx [] c fa && (sp || is_nil ws) && ws_ok ws
   | AKChars [ch] _ _, Abs2 =>
       plain_start ch && absent_ok (f_en_envs (ps_f aps)) ch fa
   | AKVerb d, Vba2 ws od cd text =>
